@@ -78,6 +78,7 @@ type (
 		orderByDefinition   OrderByDefinition
 		wg                  sync.WaitGroup
 		singletonExecutions map[string]any
+		singletonMut        sync.Mutex
 		postProcessors      []func() error
 		dual                bool
 		options             *Options
@@ -1519,7 +1520,7 @@ func FunExpr(query *Query, current Map, expr *sqlparser.FuncExpr, opts ...ExprOp
 	case "once":
 		{
 			name := fmt.Sprintf("%s.%s", strings.ToLower(expr.Qualifier.String()), expr.Name.Lowered())
-			rs, ok := query.singletonExecutions[name]
+			rs, ok := query.memoised(name)
 			if !ok {
 				slice, e := FuncArgReader(query, current, expr.Exprs)
 				if e != nil {
@@ -1529,7 +1530,7 @@ func FunExpr(query *Query, current Map, expr *sqlparser.FuncExpr, opts ...ExprOp
 				if err != nil {
 					return nil, err
 				}
-				query.singletonExecutions[name] = rs
+				query.memoise(name, rs)
 				return rs, nil
 			}
 			return rs, nil
@@ -1537,7 +1538,7 @@ func FunExpr(query *Query, current Map, expr *sqlparser.FuncExpr, opts ...ExprOp
 	case "global":
 		{
 			name := fmt.Sprintf("%s.%s", strings.ToLower(expr.Qualifier.String()), expr.Name.Lowered())
-			rs, ok := query.singletonExecutions[name]
+			rs, ok := query.memoised(name)
 			if !ok {
 				exprs := make([]sqlparser.Expr, 0)
 				for _, expr := range expr.Exprs {
@@ -1555,7 +1556,7 @@ func FunExpr(query *Query, current Map, expr *sqlparser.FuncExpr, opts ...ExprOp
 				if err != nil {
 					return nil, err
 				}
-				query.singletonExecutions[name] = rs
+				query.memoise(name, rs)
 				return rs, nil
 			}
 			return rs, nil
@@ -1597,7 +1598,7 @@ func AggrFunExpr(query *Query, current Map, expr sqlparser.AggrFunc, opts ...Exp
 	}
 	// the memo is keyed by the whole call, so that SUM(a) and SUM(b) do not share an entry
 	key := sqlparser.String(expr)
-	rs, ok := query.singletonExecutions[key]
+	rs, ok := query.memoised(key)
 	if !ok {
 		// the rows that passed WHERE (handed over by ExecSelect), else every row of the table
 		rows := query.from
@@ -1612,10 +1613,26 @@ func AggrFunExpr(query *Query, current Map, expr sqlparser.AggrFunc, opts ...Exp
 		if err != nil {
 			return nil, err
 		}
-		query.singletonExecutions[key] = result
+		query.memoise(key, result)
 		return result, nil
 	}
 	return rs, nil
+}
+
+// memoised returns what the query has memoised under a name (the result of a ONCE or GLOBAL call, of an
+// aggregate). The workers of a PARALLEL join evaluate ON on one and the same query, so the memo is
+// read and written with its mutex held
+func (query *Query) memoised(name string) (any, bool) {
+	query.singletonMut.Lock()
+	defer query.singletonMut.Unlock()
+	rs, ok := query.singletonExecutions[name]
+	return rs, ok
+}
+
+func (query *Query) memoise(name string, value any) {
+	query.singletonMut.Lock()
+	defer query.singletonMut.Unlock()
+	query.singletonExecutions[name] = value
 }
 
 func FuncArgReader(query *Query, current Map, selectExprs []sqlparser.Expr, opts ...ExprOption) ([]any, error) {
